@@ -173,14 +173,16 @@ pub struct Sink {
     pub writes: usize,
     /// environment deviation: the k-th write call (0-based) and all later ones fail
     pub fail_at: Option<usize>,
+    /// environment deviation: the k-th write call answers ErrorKind::Interrupted once (EINTR); callers must retry
+    pub interrupt_at: Option<usize>,
 }
 
 impl Sink {
     pub fn new(limit: Option<usize>) -> Sink {
-        Sink { buf: vec![], styles: vec![], limit, writes: 0, fail_at: None }
+        Sink { buf: vec![], styles: vec![], limit, writes: 0, fail_at: None, interrupt_at: None }
     }
     pub fn failing(limit: Option<usize>, fail_at: usize) -> Sink {
-        Sink { buf: vec![], styles: vec![], limit, writes: 0, fail_at: Some(fail_at) }
+        Sink { buf: vec![], styles: vec![], limit, writes: 0, fail_at: Some(fail_at), interrupt_at: None }
     }
 }
 
@@ -191,6 +193,10 @@ impl std::io::Write for Sink {
                 self.writes += 1;
                 return Err(std::io::Error::new(std::io::ErrorKind::Other, "injected write failure"));
             }
+        }
+        if self.interrupt_at == Some(self.writes) {
+            self.writes += 1;
+            return Err(std::io::Error::new(std::io::ErrorKind::Interrupted, "injected EINTR"));
         }
         self.writes += 1;
         let n = match self.limit {
